@@ -119,6 +119,10 @@ func main() {
 			fmt.Fprintln(os.Stderr, err)
 			os.Exit(2)
 		}
+		if err := os.WriteFile(filepath.Join(filepath.Dir(*genBaseline), "baseline_funcsigs.txt"), []byte(strings.Join(norm.FuncSigLines(p), "\n")+"\n"), 0o644); err != nil {
+			fmt.Fprintln(os.Stderr, err)
+			os.Exit(2)
+		}
 		if err := os.WriteFile(filepath.Join(filepath.Dir(*genBaseline), "baseline_fields.txt"), []byte(strings.Join(norm.FieldLines(p), "\n")+"\n"), 0o644); err != nil {
 			fmt.Fprintln(os.Stderr, err)
 			os.Exit(2)
@@ -184,7 +188,7 @@ func run(propID, tier, root, verif, patchFile, onlyRule string, verbose, noSeeds
 	rawProg = prog
 	progViews, normRes := norm.Views(prog)
 	if normRes != nil && len(normRes.Renamed) > 0 {
-		fmt.Printf("normalised: %d renamed struct field(s) spelled by their pinned names: %v\n", len(normRes.Renamed), normRes.Renamed)
+		fmt.Printf("normalised: %d renamed struct field(s) / function(s) spelled by their pinned names: %v\n", len(normRes.Renamed), normRes.Renamed)
 	}
 	if normRes != nil && len(normRes.Helpers) > 0 {
 		fmt.Printf("normalised: %d new function(s) %v; %d call site(s) inlined in memory (%d views)\n", len(normRes.Helpers), normRes.Helpers, normRes.Inlined, len(progViews))
